@@ -516,6 +516,13 @@ def run(ctx, report):
     from .c12 import shared_table_rule
     shared_table_rule(R11, [ctx.mod('ia32_arch'), ctx.mod('parse_ad'), ctx.mod('ia32_att')])
 
+    # ---------------------------------------------------------------- D15 the operand-size prefix of the renderings (shared with C02.D14)
+    R15 = report.rule('C03.D15', 'the 16/32-bit decision of asm_candidates on the renderings of canonical bytes (asm_candidates interpreted until the mode is set, on 25 lines: mov with a segment '
+                      'register in either direction, sldt / str / smsw / lar / lsl, movzx, in / out, plain): 0x66 exactly when the general register operand is 16 bits wide, so `8c 18`, '
+                      'rendered `mov WORD PTR [eax], ds`, is offered back without a prefix', floor=20)
+    from .c02 import size_vote_rule as _svr15
+    _svr15(ctx, R15, X)
+
     # ---------------------------------------------------------------- D14 the size the decoder prints is a size the row accepts
     R14 = report.rule('C03.D14', 'for every /digit row with a memory form the operand size _dis gives the memory operand (its size statements evaluated) is accepted by check_size_modif '
                       '(evaluated) for the modifiers of the same row: the rendering names a size under which the assembler offers the row again', floor=150)
